@@ -1,4 +1,5 @@
-HOOK_COMMITS = ["233a917 parser: optional verif-hooks feature recording doc-link position arithmetic"]
+HOOK_COMMITS = ["233a917 parser: optional verif-hooks feature recording doc-link position arithmetic",
+                "7df6383 broker: optional verif-hooks feature exposing the allocator of connection ids"]
 
 CODEC_NOTE = ("Trusted: Lean kernel + axioms propext/Classical.choice/Quot.sound; tools/extract.py; the differential harness. "
               "Modelled rather than verified: HashMap/HashSet as lists in wire order, BytesMut as byte lists, floats as bit patterns, "
@@ -147,7 +148,9 @@ CLAIMS["C05"] = _b(
     "is still there and lists the channel, and what a connection lists is an end it has claimed "
     "(claimed_end_is_listed_by_its_connected_owner, connection_lists_only_ends_it_claimed), so a disconnect closes exactly the "
     "claimed ends of that connection. The broker's low-water constant is regenerated from channel.rs. "
-    "The client-side Sender/Receiver of the aldrin crate are not modelled (partial on that clause).", "DESIGN.md section 6 C05")
+    "The client-side Sender/Receiver of the aldrin crate are not modelled (partial on that clause): they are exercised by sys scenario B "
+    "(real clients; items carry sequence numbers and must arrive in order; after closing rounds of send / take / poll receiver_closed a "
+    "sender whose receiver is alive and has taken everything must be allowed to send).", "DESIGN.md section 6 C05")
 CLAIMS["C09"] = _b(
     "Machine-checked proof (Lean 4) of an inductive invariant over ALL histories of broker events, including every way and point of "
     "ending a connection: the channel and bus-listener gauges equal the sizes of the maps, map keys are unique and below the cookie "
@@ -159,7 +162,8 @@ CLAIMS["C09"] = _b(
     "(calls_of_a_removed_connection_are_ended, no_connections_no_live_call; cross-reference invariant of C02); for ALL histories, once "
     "no connection is left all four registry maps, the channel map and the listener map are empty "
     "(no_connections_no_objects_no_services, no_connections_no_channels_no_listeners; registry invariant of C03, ownership invariant "
-    "of C05) and in every reachable state so is the call table (no_connections_no_calls). That every affected peer is notified is decided "
+    "of C05) and in every reachable state so is the call table (no_connections_no_calls). Connection ids (conn_id.rs, an anchor of this property): no id is handed out while in use, for ALL histories "
+    "of connects and disconnects (C11 connection_ids_are_never_handed_out_twice; real allocator vs. model in every run). That every affected peer is notified is decided "
     "by the correspondence runs: every scenario ends by closing everything (two orders), compares take_statistics with the model, the "
     "model's gauges with its map sizes, and requires Broker::run to finish: partial on those clauses.", "DESIGN.md section 6 C09")
 CLAIMS["C10"] = _b(
@@ -188,8 +192,10 @@ CLAIMS["C11"] = _b(
     "(remove_service_and_object_cannot_fail); wrong-direction and too-new kinds only close the sender "
     "(wrong_direction_closes_sender, C12 gated_message_fails); unknown or foreign cookies/serials are ignored without touching other "
     "state (unknown_*, foreign_listener_untouched). Partial: the four lookups and four debug_assert!s of the introspection code and "
-    "that the concrete budget of the model's step suffices are not theorems; that a connection id is new is an assumption about the "
-    "acceptor. These, and 'a well-behaved connection is still served correctly afterwards', are covered by the 'abuse' profile of the "
+    "that the concrete budget of the model's step suffices are not theorems; that the id of a new connection is not in use is a theorem "
+    "about the allocator of connection ids for ALL histories of acquiring and dropping ids, together with its two debug_assert!s "
+    "(connection_ids_are_never_handed_out_twice, connection_id_bookkeeping; model of conn_id.rs tied to the real allocator through the "
+    "broker's verif-hooks feature). These, and 'a well-behaved connection is still served correctly afterwards', are covered by the 'abuse' profile of the "
     "correspondence runs (panics caught around every poll, the model names the site, liveness probe of every surviving connection).",
     "DESIGN.md section 6 C11 and 10.2")
 CLAIMS["C12"] = _b(
